@@ -231,6 +231,16 @@ def _join_model(P: Program, rep: Report, vj: FuncInfo) -> None:  # noqa: C901
             if using:
                 rep.instance("R04.6", key, sample={"using": using, "on": [j["on"] for j in b.joins]})
             rep.instance("R04.7", key, sample={"components": want, "select": cols, "joins": [(j["alias"], j["type"], j["on"]) for j in b.joins]})
+            try:
+                vb = sm.join_visitor(M, op, [(d.name, d, None) for d in mk(ids_list, extra)], list(using) if using else None)
+            except Unmodelled as e:
+                raise AnalysisError(f"R04.7 {key}: _build_join_structure outside the evaluator's language: {e}")
+            gotb = sorted(vb[1].components) if vb[0] == "ok" and vb[1] is not None else None
+            if gotb != want:
+                fbj = P.func(f"{sm.SV}._build_join_structure")
+                rep.add(transp.fnd("R04.7", key + "/structure", fbj, fbj.node.lineno,
+                                   f"{op} over operands with identifiers {ids_list}" + (f" using {using}" if using else "") + f": semantic analysis gives the components {want} but the "
+                                   f"transpiler's structure of the join (used by the clauses that follow it and by enclosing operators) is {gotb}"))
             if sorted(cols) != want:
                 rep.add(transp.fnd("R04.7", key + "/select", vj, vj.node.lineno,
                                    f"{op} over operands with identifiers {ids_list}" + (f" using {using}" if using else "") + f": semantic analysis gives the components {want} "
